@@ -87,7 +87,11 @@ def main():
             lines = [l for l in out.split("\n") if l.startswith("VIOLATION") or l.startswith("KNOWN-FINDING") or " ok " in l or " FAIL " in l]
             caught[c] = {"rc": rc, "lines": lines[-4:], "wall_s": round(time.time() - t0)}
         res["checks"] = caught
-        res["caught_by"] = [c for c, r in caught.items() if r["rc"] == 1 and any(l.startswith("VIOLATION") for l in r["lines"])]
+        def real(r):
+            # a harness that does not build / produces no case is not a catch
+            m = re.search(r"cases=(\d+)", " ".join(r["lines"]))
+            return r["rc"] == 1 and any(l.startswith("VIOLATION") for l in r["lines"]) and m and int(m.group(1)) > 0
+        res["caught_by"] = [c for c, r in caught.items() if real(r)]
         return res
     finally:
         out_dir = os.path.join(VERIF, "seeded", sid)
